@@ -96,7 +96,7 @@ def collect_sites(prog):
             elif k == "expr": walk_expr(s, 1, env, ctx + ("call-stmt",), fi, ret)
             elif k == "block": walk_block(s[1], env, ctx + ("block",), fi, ret)
     for fi, f in enumerate(prog):
-        env = {x: t for x, t in f["params"]}
+        env = {x: core.base_ty(t) for x, t in f["params"]}       # inside its function a by-reference parameter is used like a value
         walk_block(f["body"], env, ("fn" if fi < len(prog) - 1 else "main",), fi, f["ret"])
     return esites, ssites, fns
 
@@ -242,6 +242,7 @@ def inject(prog, cls, rng):
         for fi in fis:
             f = m[fi]
             x, t = rng.choice(f["params"]) if not f.get("method") or rng.random() < 0.5 else f["params"][0]
+            t = core.base_ty(t)
             if core.is_struct(t):
                 init = ["slit", core.sid_of(t), [["lit", ft, 1] for ft in core.fields_of(t)]]
             else:
